@@ -14,5 +14,7 @@ TECH = {
  "C04": "untrusted-any sink analysis, nil-message and panic-site audits, who-may-close table, owner-goroutine confinement analysis over the call graph, non-blocking send audit (static analysis)",
  "C07": "non-blocking send audit + wait-for graph over goroutine roles (lock-order analysis transposed to channel rendezvous) + retry-bound guard obligations (static analysis)",
  "C06": "send-after-close typestate over goroutine roles (join tables), close-site ordering (dominance), lock-region flag tests, WaitGroup pairing (static analysis)",
+ "C08": "spawn-freedom of the dispatch path over the call graph, who-may-send tables by message type and owner confinement, unbuffered single-consumer hand-off checks (static analysis)",
+ "C11": "type-graph isolation, constructor who-may-call tables, package-level write audit, config aliasing and dict freshness analysis (static analysis)",
  "C03": "SSA edge-cut guard obligations, switch/case-set agreement, INVOCATION provenance (static analysis)",
 }
